@@ -10,8 +10,8 @@ PROP = {
     "assumptions": XML_ASSUME + [
         "unescape (Spec/EscSpec.v) states how encoding/xml's tokenizer reads the five predefined entities; validated on every run by running the real tokenizer over the escaped strings (character data and attribute value)",
         "the acceptance function of the validity check is a parameter of checked_sound; the correspondence run feeds it the real tokenizer's verdict on the unchecked output",
-        "the MapSeq encoders (MapSeq.Xml, MapSeq.XmlIndent) and NewMapXmlSeq are not modelled here (C04): their clauses are checked by the Go-side oracle only; MapSeq.Xml's validity check is transcribed (checked_at_empty)",
+        "the MapSeq encoders (MapSeq.Xml, MapSeq.XmlIndent) and NewMapXmlSeq are not modelled here (C04): their clauses are checked by the Go-side oracle only (recorded finding: they panic on text beside child elements, the C04 defect)",
     ],
-    "level_text": "Machine-checked theorems for all strings, Maps, token lists and option records: escaping is a single pass whose inverse recovers the string exactly and whose output is safe in text and attribute position; Map.Xml writes every string leaf through escaping exactly once; decoder-side escaping is the plain decoding with every leaf escaped, and re-encoding writes only safe texts; the two switches are never both on; with the check on a nil error implies acceptance by the tokenizer (refuted for MapSeq.Xml, whose check reads an empty string: recorded finding). The model is tied to /repo on every run by correspondence, and the statement is evaluated on the four encoders by a Go-side oracle.",
+    "level_text": "Machine-checked theorems for all strings, Maps, token lists and option records: escaping is a single pass whose inverse recovers the string exactly and whose output is safe in text and attribute position; Map.Xml writes every string leaf through escaping exactly once; decoder-side escaping is the plain decoding with every leaf escaped, and re-encoding writes only safe texts; the two switches are never both on; with the check on a nil error implies acceptance by the tokenizer (all four encoders since fix 122e022; before it MapSeq.Xml's check read an empty string). The model is tied to /repo on every run by correspondence, and the statement is evaluated on the four encoders by a Go-side oracle.",
     "level_note": "Trusted: Coq kernel + vm_compute; encoding/xml tokenizer as environment (unescape validated, not proved; acceptance is a parameter); hand-written model validated by correspondence; MapSeq codec covered by the oracle only; Map.XmlIndent bytes are not compared with the model (its items equal Map.Xml's up to whitespace), only evaluated by the oracle.",
 }
